@@ -85,8 +85,8 @@ impl Property for C01 {
     }
     fn runs(&self, tier: Tier) -> u64 {
         match tier {
-            Tier::Quick => 4000,
-            Tier::Thorough => 40000,
+            Tier::Quick => 40000,
+            Tier::Thorough => 400000,
         }
     }
     fn rule(&self) -> &'static str {
